@@ -71,10 +71,55 @@ def ubi_from_pair(B, BI, ha, hb, g1, g2):
     return np.dot(BI, U.T)
 
 
-class RealCell(object):
-    """the real ImageD11 unitcell of a specification cell record + what the model says about it"""
+HOWS_ARRAY = ("buffer", "row", "column", "tail")        # float64 arrays the caller goes on using (Orient.tla, OwnHows)
+HOWS = HOWS_ARRAY + ("list",)
 
-    def __init__(self, ucmod, crec, k=0):
+
+def how_of(cid, k):
+    """what the constructor of the instance (cell, k) is given: k = 0 always one of the array layouts; the scaled
+    instances also go through the plain list (stable: no seed, so that a replay builds the same object)"""
+    n = sum(ord(c) for c in cid) + 3 * int(k)
+    return HOWS_ARRAY[n % len(HOWS_ARRAY)] if k == 0 else HOWS[n % len(HOWS)]
+
+
+def alien_cell(version, lp):
+    """the numbers the caller writes over his parameter array: version 1 = the cell itself, every other version a very
+    different (much smaller: a smaller hkl search box, triclinic) cell"""
+    if version == 1:
+        return list(lp)
+    f, ang = (((0.31, 0.27, 0.23), (63.0, 71.0, 117.0)), ((0.17, 0.19, 0.13), (101.0, 97.0, 83.0)))[version % 2]
+    w = 1.0 + 0.01 * (version // 2)
+    return [lp[0] * f[0] * w, lp[1] * f[1] * w, lp[2] * f[2] * w, ang[0], ang[1], ang[2]]
+
+
+def caller_array(how, lp):
+    """(argument for unitcell(), the caller's whole array or None): a 6-vector, a row of a table of cells, a column of
+    a table (strided view), a slice of a longer parameter vector - all float64, all still the caller's - or a list"""
+    if how == "list":
+        return list(lp), None
+    if how == "buffer":
+        base = np.array(lp, float)
+        return base, base
+    if how == "row":
+        base = np.array([alien_cell(2, lp), lp, alien_cell(3, lp)], float)
+        return base[1], base
+    if how == "column":
+        base = np.array([alien_cell(3, lp), lp, alien_cell(2, lp)], float).T.copy()      # (6,3), C order
+        return base[:, 1], base
+    if how == "tail":
+        base = np.zeros(10, float)
+        base[2:8] = lp
+        return base[2:8], base
+    raise ValueError(how)
+
+
+class RealCell(object):
+    """the real ImageD11 unitcell of a specification cell record + what the model says about it.
+    The object is made from an array the CALLER keeps using (how; Orient.tla, ownership): the array is overwritten
+    with a very different cell right after the constructor returns and again after makerings - the object is a
+    snapshot of the six numbers it was given"""
+
+    def __init__(self, ucmod, crec, k=0, how="buffer", rings=True):
         self.ucmod = ucmod
         self.rec = crec
         self.id = crec["cell"]
@@ -102,11 +147,67 @@ class RealCell(object):
         # every member of the last ring lies below the limit (rings beyond it may appear: they are not used)
         self.limit = math.sqrt((max(self.qsets[nr - 1]) + 0.5) * self.scale) / s
         self.tol = 0.001 / s                    # makerings' default tolerance, in the units of this cell's d*
-        self.cell = ucmod.unitcell(self.lp, crec["cen"])
-        if self.k == 0:
-            self.cell.makerings(self.limit)     # the default tolerance, as a user would call it
-        else:
-            self.cell.makerings(self.limit, tol=self.tol)
+        self.how = how
+        self.arg, self.base = caller_array(how, self.lp)
+        self.version = 1                        # what the caller's array holds now (alien_cell)
+        self.build_error = None
+        self.has_rings = False
+        self.prev = None                        # the previous orient() result as handed out + copies (judge_orient)
+        self.ncalls = 0
+        self.cell = ucmod.unitcell(self.arg, crec["cen"])
+        if rings:
+            self.scribble(2)
+            self.makerings()
+            self.scribble(3)
+
+    def scribble(self, version):
+        """the caller re-uses his parameter array (and the rest of the table it is part of) for another cell"""
+        self.version = version
+        if self.base is None:
+            return
+        self.base[...] = 0.5 + 0.25 * version
+        self.arg[:] = alien_cell(version, self.lp)
+
+    def makerings(self, tol=None):
+        """makerings as a user would call it (k = 0: the default tolerance); an exception is kept, not raised"""
+        try:
+            if tol is None and self.k == 0:
+                self.cell.makerings(self.limit)
+            else:
+                self.cell.makerings(self.limit, tol=self.tol if tol is None else tol)
+            self.has_rings = True
+        except Exception as e:      # noqa
+            self.build_error = "makerings raised %r" % (e,)
+
+    def ownership_problems(self):
+        """the object is a snapshot of the numbers it was made from and of what it derived from them, whatever the
+        caller's array holds by now"""
+        probs = []
+        c = self.cell
+        try:
+            lpn = np.asarray(c.lattice_parameters, float)
+            if lpn.shape != (6,) or not np.array_equal(lpn, np.array(self.lp, float)):
+                probs.append("the cell was made from %s holding %s; after the caller overwrote that array the object "
+                             "reports lattice_parameters %s%s" % (
+                                 self.describe_how(), [round(v, 6) for v in self.lp], [round(float(v), 6) for v in lpn.ravel()],
+                                 " (it shares memory with the caller's array)" if self.base is not None and
+                                 np.shares_memory(c.lattice_parameters, self.base) else ""))
+            elif self.base is not None and np.shares_memory(c.lattice_parameters, self.base):
+                probs.append("lattice_parameters of the cell made from %s shares memory with the caller's array" % self.describe_how())
+            if not np.abs(np.asarray(c.B, float) - self.B).max() <= REL * float(np.abs(self.B).max()):
+                probs.append("B of the object is not the Busing-Levy B of the numbers it was made from")
+            if not np.abs(np.asarray(c.gi, float) - self.gi).max() <= REL * float(np.abs(self.gi).max()):
+                probs.append("the reciprocal metric tensor of the object is not that of the numbers it was made from")
+        except Exception as e:      # noqa
+            probs.append("reading the object's parameters raised %r" % (e,))
+        if self.build_error:
+            probs.append("%s (cell made from %s that the caller overwrote afterwards)" % (self.build_error, self.describe_how()))
+        return probs
+
+    def describe_how(self):
+        return {"buffer": "a float64 array of 6 numbers", "row": "a row of a float64 table of cells",
+                "column": "a column (strided view) of a float64 table of cells",
+                "tail": "a slice of a longer float64 parameter vector", "list": "a list"}[self.how]
 
     def ring_problems(self):
         """compare the real ring table with the model's rings (C03 territory: reported, not judged here)"""
@@ -393,6 +494,22 @@ def judge_direct_routes(rc, rt, imod, order, small, U):
     return probs, n
 
 
+def found_true(rc, ubis, UB):
+    """some member of ubis is finite, right handed, has the cell's metric and equals the generating UBI up to a member
+    of Aut+(G): UBI.UB is one of the group's integer matrices"""
+    for u in ubis:
+        u = np.asarray(u, float)
+        if u.shape != (3, 3) or not np.all(np.isfinite(u)) or np.linalg.det(u) <= 0:
+            continue
+        if np.abs(np.dot(u, u.T) - rc.g).max() > REL * float(np.abs(rc.g).max()) + 1e-12:
+            continue
+        M = np.dot(u, UB)
+        Mr = np.round(M)
+        if np.abs(M - Mr).max() < TOL_INT and tuple(tuple(int(v) for v in row) for row in Mr) in rc.aut:
+            return True
+    return False
+
+
 class OrientStats(object):
     def __init__(self):
         self.calls = 0
@@ -439,15 +556,41 @@ def judge_orient(rc, r1, r2, kept_rec, lookups, U, x, mode, stats, perturb=None,
     g2 = np.dot(UB, hb)
     cell = rc.cell
     probs = []
+    # the two g-vectors are handed over in arrays of the caller (rows of a (2,3) array / columns of a (3,2) array in
+    # turn) which he overwrites as soon as orient has returned (Orient.tla, ownership: OOrient, OScribG)
+    rc.ncalls += 1
+    if rc.ncalls % 2:
+        gbuf = np.array([g1, g2])
+        a1, a2 = gbuf[0], gbuf[1]
+    else:
+        gbuf = np.array([g1, g2]).T.copy()
+        a1, a2 = gbuf[:, 0], gbuf[:, 1]
     try:
         if mode == 0:
-            cell.orient(r1 - 1, g1, r2 - 1, g2)
+            cell.orient(r1 - 1, a1, r2 - 1, a2)
         else:
-            cell.orient(r1 - 1, g1, r2 - 1, g2, crange=CRS[mode])
+            cell.orient(r1 - 1, a1, r2 - 1, a2, crange=CRS[mode])
     except Exception as e:      # noqa
         return [("property", "orient raised %r" % (e,))]
     stats.calls += 1
-    ubis = [np.array(u, float) for u in cell.UBIlist]
+    try:
+        held = cell.UBIlist
+        ubis = [np.array(u, float) for u in held]
+        held_ubi = cell.UBI
+        ubi_copy = np.array(held_ubi, float)
+        gbuf[...] = gbuf[::-1] * (-1.75) + 0.375
+        now = [np.asarray(u, float) for u in held] + [np.asarray(held_ubi, float)]
+        if len(now) != len(ubis) + 1 or not all(np.array_equal(a, b) for a, b in zip(now, ubis + [ubi_copy])):
+            probs.append(("property", "the orientations handed out changed when the caller overwrote the g-vector arrays he had passed"))
+        if rc.prev is not None:
+            pheld, pcopies, pubi, pubicopy = rc.prev
+            pnow = [np.asarray(u, float) for u in pheld]
+            if (len(pnow) != len(pcopies) or not all(np.array_equal(a, b) for a, b in zip(pnow, pcopies))
+                    or not np.array_equal(np.asarray(pubi, float), pubicopy)):
+                probs.append(("property", "the result handed out by the PREVIOUS orient call (its UBIlist / UBI arrays) changed during this call"))
+        rc.prev = (held, ubis, held_ubi, ubi_copy)
+    except Exception as e:      # noqa
+        return [("property", "orient left UBIlist / UBI that cannot be read as 3x3 matrices: %r" % (e,))]
     lkey = (r1, r2, tuple(order[x][0]), tuple(order[x][1]), mode)
     if store is not None:
         store[lkey] = ubis
